@@ -49,7 +49,12 @@ func (w Writer) Delete(
 	ctx context.Context,
 	keys ...Key,
 ) error {
-	return w.table.NewDelete().Where(gorp.MatchKeys[Key, Policy](keys...)).Exec(ctx, w.tx)
+	if err := w.table.NewDelete().Where(gorp.MatchKeys[Key, Policy](keys...)).Exec(ctx, w.tx); err != nil {
+		return err
+	}
+	// Remove the policies' ontology resources and their role attachments as well: a
+	// policy created later under the same key must not inherit them.
+	return w.otg.DeleteManyResources(ctx, OntologyIDs(keys))
 }
 
 func (w Writer) SetOnRole(
